@@ -27,7 +27,8 @@
 (* grammars are WireSnapshot and WireTx, instantiated below for their      *)
 (* lengths): SNAPSHOT = snapbody(L-8) snaptopo(8), tx = one token.  Point  *)
 (* tokens carry v >= 0 for a valid prime-order point and v < 0 for an      *)
-(* invalid one (-10 not on the curve, -11 small order).                    *)
+(* invalid one (-10 not on the curve, -11 small order, -12 mixed order: a   *)
+(* valid point plus a torsion point).                                      *)
 (***************************************************************************)
 EXTENDS Wire
 
